@@ -94,27 +94,37 @@ let z_of_decimal (s : Stdlib.String.t) : z =
 
 (* ---------- strings: UTF-8 text <-> code points ---------- *)
 (* invalid bytes decode to 0x110000 + byte, mirroring the model's convention *)
+(* code points below 256 are shared, preallocated values (file contents travel one
+   code point per byte: no allocation per byte) *)
+let n_small : n array = Array.init 256 n_of_int
+let n_of_cp (v : int) : n = if v < 256 then Array.unsafe_get n_small v else n_of_int v
+
 let decode_utf8 (s : Stdlib.String.t) : n list =
   let len = String.length s in
-  let out = ref [] in
+  (* pass 1: code points into an int array *)
+  let cps = Array.make len 0 in
+  let k = ref 0 in
   let i = ref 0 in
-  let cont k = !i + k < len && (Char.code s.[!i + k]) land 0xC0 = 0x80 in
   while !i < len do
-    let c = Char.code s.[!i] in
-    let push v k = out := n_of_int v :: !out; i := !i + k in
-    if c < 0x80 then push c 1
-    else if c land 0xE0 = 0xC0 && c >= 0xC2 && cont 1 then
-      push (((c land 0x1F) lsl 6) lor (Char.code s.[!i+1] land 0x3F)) 2
-    else if c land 0xF0 = 0xE0 && cont 1 && cont 2 then begin
-      let v = ((c land 0x0F) lsl 12) lor ((Char.code s.[!i+1] land 0x3F) lsl 6) lor (Char.code s.[!i+2] land 0x3F) in
-      if v >= 0x800 && not (v >= 0xD800 && v <= 0xDFFF) then push v 3 else push (0x110000 + c) 1 end
-    else if c land 0xF8 = 0xF0 && cont 1 && cont 2 && cont 3 then begin
-      let v = ((c land 0x07) lsl 18) lor ((Char.code s.[!i+1] land 0x3F) lsl 12)
-              lor ((Char.code s.[!i+2] land 0x3F) lsl 6) lor (Char.code s.[!i+3] land 0x3F) in
-      if v >= 0x10000 && v <= 0x10FFFF then push v 4 else push (0x110000 + c) 1 end
-    else push (0x110000 + c) 1
+    let c = Char.code (String.unsafe_get s !i) in
+    let cont j = !i + j < len && (Char.code s.[!i + j]) land 0xC0 = 0x80 in
+    let v, w =
+      if c < 0x80 then c, 1
+      else if c land 0xE0 = 0xC0 && c >= 0xC2 && cont 1 then
+        (((c land 0x1F) lsl 6) lor (Char.code s.[!i+1] land 0x3F)), 2
+      else if c land 0xF0 = 0xE0 && cont 1 && cont 2 then begin
+        let v = ((c land 0x0F) lsl 12) lor ((Char.code s.[!i+1] land 0x3F) lsl 6) lor (Char.code s.[!i+2] land 0x3F) in
+        if v >= 0x800 && not (v >= 0xD800 && v <= 0xDFFF) then v, 3 else (0x110000 + c), 1 end
+      else if c land 0xF8 = 0xF0 && cont 1 && cont 2 && cont 3 then begin
+        let v = ((c land 0x07) lsl 18) lor ((Char.code s.[!i+1] land 0x3F) lsl 12)
+                lor ((Char.code s.[!i+2] land 0x3F) lsl 6) lor (Char.code s.[!i+3] land 0x3F) in
+        if v >= 0x10000 && v <= 0x10FFFF then v, 4 else (0x110000 + c), 1 end
+      else (0x110000 + c), 1 in
+    Array.unsafe_set cps !k v; incr k; i := !i + w
   done;
-  List.rev !out
+  (* pass 2: build the list back to front *)
+  let rec build j acc = if j < 0 then acc else build (j - 1) (n_of_cp (Array.unsafe_get cps j) :: acc) in
+  build (!k - 1) []
 
 let encode_utf8 (b : Buffer.t) (v : int) : unit =
   if v >= 0x110000 then Buffer.add_char b (Char.chr ((v - 0x110000) land 0xFF))
